@@ -9,7 +9,9 @@ same keys held, fires the same mapping again.  M counts again once it has been r
 again."
 
 FULL STATEMENT: the trace monitor `monC08` (Monitors.lean) with ghost obligations `(M, t, m, held, fresh)`
-accepts every step of every history of every layout — `C08_statement`.
+accepts every step of every history of every layout — `C08_statement` (sentences 1–3 of the property;
+sentence 4, "M counts again …", is not in the monitor: it is `C08_pressed_again` /
+`C08_absorbed_only_by_firing` / `C08_counts` below).
 
 PROVED IN FULL (`C08_full : C08_statement`) since the fix of finding D6.  D6 was: `absorbing_trigger` is ONE slot
 for the whole list `mapped_absorbed_keys`, and `add_new_mapping` ran `release_absorbed_keys` only
@@ -442,7 +444,7 @@ theorem C08_partial_i_monitor (L : Layout) (h2 : H2 L) (y : Sys8) (hy : Reachabl
   have _ := h2
   C08_i_monitor L y hy ob hob k hk hkt hkM
 
-/-! ### clause (ii) under H2 (since the fix of D7; it needed H1 ∧ H2 before) -/
+/-! ### clause (ii) (every layout since the fixes of D7 and D6; the variants with `H1` / `H2` arguments no longer use them) -/
 
 theorem noMAtPresses_append (M : Key) (V : List Key) (outM : Bool) (a b : List Event) :
     noMAtPresses M V outM (a ++ b) = (noMAtPresses M V outM a && noMAtPresses M (foldEvs V a) outM b) := by
@@ -673,7 +675,7 @@ theorem C08_partial_ii (L : Layout) (h1 : H1 L) (h2 : H2 L) (y : Sys8) (hy : Rea
   have _ := h1
   C08_partial_ii' L h2 y hy ob hob k hk hkt hkM
 
-/-! ### clause (iii) under H2 -/
+/-! ### clause (iii) (the variants with an `H2` argument no longer use it) -/
 
 /-- the mapping a press of `t` fires when nothing is treated as absorbed (the case of a re-press of the
 absorbing trigger) -/
@@ -1181,7 +1183,7 @@ theorem C08_d7_fixed :
       [Event.released 30, Event.pressed 44, Event.pressed 29] := by
   decide
 
-/-! Non-vacuity of the partial theorem: unit-test layout `absorbing_double_press_test_1`
+/-! Non-vacuity (written for the former partial theorem, equally an instance of `C08_full`): unit-test layout `absorbing_double_press_test_1`
 (`[LEFTSHIFT,A]→[LEFTSHIFT,A]`, `[LEFTSHIFT,B]→[LEFTSHIFT,B]`, both absorbing LEFTSHIFT; H1 ∧ H2 hold):
 after LEFTSHIFT↓ A↓ the obligation (LEFTSHIFT, A) is pending and pressing B does NOT fire the B chord:
 B is passed through after LEFTSHIFT has been lifted. -/
